@@ -15,8 +15,10 @@ use std::net::Ipv4Addr;
 use std::time::{Duration, Instant};
 
 const LOCAL: u16 = 90;
-const PEER_TIMEOUT: Duration = Duration::from_secs(2);
-const QUERY_TIMEOUT: Duration = Duration::from_secs(60);
+// deliberately not the defaults (2 s / 60 s): a configuration value that never reaches the lookup
+// must show
+const PEER_TIMEOUT: Duration = Duration::from_secs(3);
+const QUERY_TIMEOUT: Duration = Duration::from_secs(7);
 
 #[derive(Clone, Debug, PartialEq, Eq, Hash)]
 pub enum LEv {
